@@ -65,15 +65,36 @@ func specDnlKey(name enc.Name, nonce uint32) uint64 { return enc.SpecNameHash(na
 // Interface-level contracts of the tables, as the forwarding pipelines see them
 // ---------------------------------------------------------------------------------------
 
-//@ func (PitCsTable).InsertInterest
-//@   modifies all(basePitEntry), all(nameTreePitEntry), all(pitCsTreeNode), all(PitCsTree)
-//@   ensures result0 != nil && typeIs(result0, "*nameTreePitEntry") && result0.(*nameTreePitEntry).inRecords != nil
+// (PitCsTable).InsertInterest: see zz_verif_pitcs_iface.go
 
+// specFibWf(t): the representation invariant of the FIB as its two lookups require it (C05): for the name tree the
+// root/parent/child-link/next-hop-list invariants, for the hash table the slot, key-length, depth-bound and next-hop-list
+// invariants. Carried through the interface as an opaque predicate: the pipelines thread it, the refinement checks
+// (props: `mode: refine`) unfold it for the dynamic type of the table.
+func specFibWf(t FibStrategy) bool {
+	if f, ok := t.(*FibStrategyTree); ok {
+		return f != nil && fibOneRoot(f) && fibUpWf() && fibKidsWf() && fibHopsWf(f)
+	}
+	if f, ok := t.(*FibStrategyHashTable); ok {
+		return f != nil && fibHtWf(f) && fibHtLenWf(f) && fibHtMdWf(f) && fibHtHopsWf() && f.m >= 0
+	}
+	return true
+}
+
+// FindNextHopsEnc / FindStrategyEnc as the pipelines see them: lookups (nothing is modified), every next-hop record
+// returned is non-nil. WHICH records are returned (longest-prefix match) is the [lpm] clause of the two concrete
+// contracts (C05); it is stated over each implementation's own representation and is not lifted to the interface.
+//
 //@ func (FibStrategy).FindNextHopsEnc
+//@   requires specFibWf(self)
+//@   ensures [wf-kept] specFibWf(self)
 //@   ensures forallIn(0, len(result), func(i int) bool { return result[i] != nil })
 
-//@ func (PitCsTable).FindInterestPrefixMatchByDataEnc
-//@   ensures forallIn(0, len(result), func(i int) bool { return result[i] != nil })
+//@ func (FibStrategy).FindStrategyEnc
+//@   requires specFibWf(self)
+//@   ensures [wf-kept] specFibWf(self)
+
+// (PitCsTable).FindInterestPrefixMatchByDataEnc: see zz_verif_pitcs_iface.go
 
 //@ func (PitEntry).PitCs
 //@   pure
@@ -95,6 +116,12 @@ func specDnlKey(name enc.Name, nonce uint32) uint64 { return enc.SpecNameHash(na
 // whether some configured region name is a prefix of name (enc.SpecIsPrefix: component-wise, the region not longer).
 // ---------------------------------------------------------------------------------------
 
+// SpecInProducerRegion(name): some configured producer-region name is a prefix of name (what IsProducer decides).
+func SpecInProducerRegion(name enc.Name) bool {
+	return existsIn(0, len(NetworkRegion.table), func(i int) bool { return enc.SpecIsPrefix(NetworkRegion.table[i], name) })
+}
+
 //@ func (*networkRegionTable).IsProducer
 //@   ensures result == existsIn(0, len(n.table), func(i int) bool { return enc.SpecIsPrefix(n.table[i], name) })
+//@   ensures [region] n == NetworkRegion ==> result == SpecInProducerRegion(name)
 //@   loop 1 invariant forallIn(0, rangeindex+1, func(i int) bool { return !enc.SpecIsPrefix(n.table[i], name) })
